@@ -244,6 +244,13 @@ func main() {
 						stale = 1
 					}
 					meta["restore"]++
+					if err == nil && r.Intn(2) == 0 {
+						// a new snapshot right after an out-of-order restore (later snapshots are still held): it must not take
+						// over the id of one of them
+						nid := store.Snapshot()
+						snapIDs = append(snapIDs, nid)
+						w.Emit(map[string]interface{}{"op": "snap", "id": nid})
+					}
 				default:
 					if len(snapIDs) > 0 {
 						id := snapIDs[r.Intn(len(snapIDs))]
